@@ -6,6 +6,7 @@ import (
 	"fmt"
 	"google.golang.org/protobuf/types/known/durationpb"
 	"google.golang.org/protobuf/types/known/fieldmaskpb"
+	"google.golang.org/protobuf/types/known/timestamppb"
 	"math/rand"
 	"net"
 	"os"
@@ -372,6 +373,194 @@ func TestC16(t *testing.T) {
 			byCode["stream:"+status.Code(err).String()]++
 		}
 		col.Case(evd.FP("stream", sc.name), true)
+	}
+	// sequences of individually valid requests that leave the server in a state
+	// its background goroutines (stream fetchers, the dead-letter sweep) have to
+	// cope with: those run outside the per-request recovery
+	{
+		dur := func(d time.Duration) *durationpb.Duration { return durationpb.New(d) }
+		fast := &pubsubpb.RetryPolicy{MinimumBackoff: dur(time.Millisecond), MaximumBackoff: dur(time.Millisecond)}
+		pub := func(c context.Context, topic string, n int) {
+			req := &pubsubpb.PublishRequest{Topic: topic}
+			for k := 0; k < n; k++ {
+				req.Messages = append(req.Messages, &pubsubpb.PubsubMessage{Data: []byte(fmt.Sprintf(`{"q":%d}`, k))})
+			}
+			srv.api.Pub.Publish(c, req)
+		}
+		// exhaust: pull and give back (deadline 0) until nothing comes any more
+		exhaust := func(c context.Context, sub string, rounds int) {
+			for k := 0; k < rounds; k++ {
+				r, err := srv.api.Sub.Pull(c, &pubsubpb.PullRequest{Subscription: sub, MaxMessages: 10, ReturnImmediately: true})
+				if err != nil {
+					return
+				}
+				var ids []string
+				for _, m := range r.ReceivedMessages {
+					ids = append(ids, m.AckId)
+				}
+				if len(ids) > 0 {
+					srv.api.Sub.ModifyAckDeadline(c, &pubsubpb.ModifyAckDeadlineRequest{Subscription: sub, AckIds: ids, AckDeadlineSeconds: 0})
+				}
+				time.Sleep(20 * time.Millisecond)
+			}
+		}
+		// stream: hold a StreamingPull open for a moment, optionally doing something meanwhile
+		stream := func(c context.Context, sub string, meanwhile func()) {
+			sc, cancel := context.WithTimeout(c, 2*time.Second)
+			defer cancel()
+			st, err := srv.api.Sub.StreamingPull(sc)
+			if err != nil {
+				return
+			}
+			st.Send(&pubsubpb.StreamingPullRequest{Subscription: sub, StreamAckDeadlineSeconds: 10, MaxOutstandingMessages: 2})
+			done := make(chan struct{})
+			go func() {
+				defer close(done)
+				for {
+					if _, err := st.Recv(); err != nil {
+						return
+					}
+				}
+			}()
+			time.Sleep(200 * time.Millisecond)
+			if meanwhile != nil {
+				meanwhile()
+			}
+			select {
+			case <-done:
+			case <-time.After(700 * time.Millisecond):
+			}
+			st.CloseSend()
+		}
+		type seqCase struct {
+			name string
+			run  func(c context.Context, t, d, sub string)
+		}
+		mkSub := func(c context.Context, s *pubsubpb.Subscription) {
+			srv.api.Sub.CreateSubscription(c, s)
+		}
+		seqs := []seqCase{
+			{"dead-letter-topic-deleted-then-attempts-exhausted", func(c context.Context, t, d, sub string) {
+				mkSub(c, &pubsubpb.Subscription{Name: sub, Topic: t, RetryPolicy: fast, DeadLetterPolicy: &pubsubpb.DeadLetterPolicy{DeadLetterTopic: d, MaxDeliveryAttempts: 5}})
+				pub(c, t, 2)
+				srv.api.Pub.DeleteTopic(c, &pubsubpb.DeleteTopicRequest{Topic: d})
+				exhaust(c, sub, 8)
+				stream(c, sub, nil)
+				exhaust(c, sub, 2)
+			}},
+			{"attempts-exhausted-then-dead-letter-topic-deleted", func(c context.Context, t, d, sub string) {
+				mkSub(c, &pubsubpb.Subscription{Name: sub, Topic: t, RetryPolicy: fast, DeadLetterPolicy: &pubsubpb.DeadLetterPolicy{DeadLetterTopic: d, MaxDeliveryAttempts: 5}})
+				pub(c, t, 2)
+				exhaust(c, sub, 5)
+				srv.api.Pub.DeleteTopic(c, &pubsubpb.DeleteTopicRequest{Topic: d})
+				stream(c, sub, func() { exhaust(c, sub, 3) })
+			}},
+			{"dead-letter-to-own-topic", func(c context.Context, t, d, sub string) {
+				mkSub(c, &pubsubpb.Subscription{Name: sub, Topic: t, RetryPolicy: fast, DeadLetterPolicy: &pubsubpb.DeadLetterPolicy{DeadLetterTopic: t, MaxDeliveryAttempts: 5}})
+				pub(c, t, 2)
+				exhaust(c, sub, 12)
+				stream(c, sub, nil)
+			}},
+			{"dead-letter-topic-without-subscriptions", func(c context.Context, t, d, sub string) {
+				mkSub(c, &pubsubpb.Subscription{Name: sub, Topic: t, RetryPolicy: fast, DeadLetterPolicy: &pubsubpb.DeadLetterPolicy{DeadLetterTopic: d, MaxDeliveryAttempts: 5}})
+				pub(c, t, 2)
+				exhaust(c, sub, 8)
+				stream(c, sub, nil)
+			}},
+			{"topic-deleted-under-open-stream", func(c context.Context, t, d, sub string) {
+				mkSub(c, &pubsubpb.Subscription{Name: sub, Topic: t, RetryPolicy: fast})
+				pub(c, t, 3)
+				stream(c, sub, func() {
+					srv.api.Pub.DeleteTopic(c, &pubsubpb.DeleteTopicRequest{Topic: t})
+					pub(c, t, 1)
+				})
+				exhaust(c, sub, 2)
+			}},
+			{"subscription-deleted-under-open-stream", func(c context.Context, t, d, sub string) {
+				mkSub(c, &pubsubpb.Subscription{Name: sub, Topic: t, RetryPolicy: fast})
+				pub(c, t, 3)
+				stream(c, sub, func() {
+					srv.api.Sub.DeleteSubscription(c, &pubsubpb.DeleteSubscriptionRequest{Subscription: sub})
+					pub(c, t, 1)
+				})
+			}},
+			{"subscription-recreated-under-open-stream", func(c context.Context, t, d, sub string) {
+				mkSub(c, &pubsubpb.Subscription{Name: sub, Topic: t, RetryPolicy: fast})
+				pub(c, t, 3)
+				stream(c, sub, func() {
+					srv.api.Sub.DeleteSubscription(c, &pubsubpb.DeleteSubscriptionRequest{Subscription: sub})
+					mkSub(c, &pubsubpb.Subscription{Name: sub, Topic: t, EnableMessageOrdering: true})
+					pub(c, t, 2)
+				})
+			}},
+			{"seeks-under-open-stream", func(c context.Context, t, d, sub string) {
+				mkSub(c, &pubsubpb.Subscription{Name: sub, Topic: t, RetryPolicy: fast, RetainAckedMessages: true})
+				pub(c, t, 3)
+				stream(c, sub, func() {
+					srv.api.Sub.Seek(c, &pubsubpb.SeekRequest{Subscription: sub, Target: &pubsubpb.SeekRequest_Time{Time: timestamppb.New(time.Now().Add(time.Hour))}})
+					srv.api.Sub.Seek(c, &pubsubpb.SeekRequest{Subscription: sub, Target: &pubsubpb.SeekRequest_Time{Time: timestamppb.New(time.Unix(0, 0))}})
+					pub(c, t, 1)
+				})
+			}},
+			{"updates-under-open-stream", func(c context.Context, t, d, sub string) {
+				mkSub(c, &pubsubpb.Subscription{Name: sub, Topic: t, RetryPolicy: fast})
+				pub(c, t, 3)
+				stream(c, sub, func() {
+					srv.api.Sub.UpdateSubscription(c, &pubsubpb.UpdateSubscriptionRequest{Subscription: &pubsubpb.Subscription{Name: sub, Filter: `attributes:nope`, EnableMessageOrdering: true, DeadLetterPolicy: &pubsubpb.DeadLetterPolicy{DeadLetterTopic: d, MaxDeliveryAttempts: 5}},
+						UpdateMask: &fieldmaskpb.FieldMask{Paths: []string{"filter", "enable_message_ordering", "dead_letter_policy"}}})
+					pub(c, t, 2)
+					srv.api.Sub.ModifyPushConfig(c, &pubsubpb.ModifyPushConfigRequest{Subscription: sub, PushConfig: &pubsubpb.PushConfig{PushEndpoint: "http://127.0.0.1:1/x"}})
+				})
+				srv.api.Sub.ModifyPushConfig(c, &pubsubpb.ModifyPushConfigRequest{Subscription: sub, PushConfig: &pubsubpb.PushConfig{}})
+			}},
+			{"snapshot-of-deleted-subscription-and-topic", func(c context.Context, t, d, sub string) {
+				mkSub(c, &pubsubpb.Subscription{Name: sub, Topic: t, RetryPolicy: fast})
+				pub(c, t, 2)
+				snap := strings.Replace(sub, "/subscriptions/", "/snapshots/", 1)
+				srv.api.Sub.CreateSnapshot(c, &pubsubpb.CreateSnapshotRequest{Name: snap, Subscription: sub})
+				srv.api.Sub.DeleteSubscription(c, &pubsubpb.DeleteSubscriptionRequest{Subscription: sub})
+				srv.api.Pub.DeleteTopic(c, &pubsubpb.DeleteTopicRequest{Topic: t})
+				mkSub(c, &pubsubpb.Subscription{Name: sub, Topic: d})
+				srv.api.Sub.Seek(c, &pubsubpb.SeekRequest{Subscription: sub, Target: &pubsubpb.SeekRequest_Snapshot{Snapshot: snap}})
+				stream(c, sub, nil)
+				srv.api.Sub.DeleteSnapshot(c, &pubsubpb.DeleteSnapshotRequest{Snapshot: snap})
+			}},
+		}
+		for k, sq := range seqs {
+			if !cfg.Mine(k + 3) {
+				continue
+			}
+			line, _ := json.Marshal(map[string]any{"sequence": sq.name})
+			reqLog.Write(append(line, '\n'))
+			reqLog.Sync()
+			c, cancel := context.WithTimeout(ctx, 30*time.Second)
+			tn, dn, sn := fmt.Sprintf("projects/p/topics/seq%d", k), fmt.Sprintf("projects/p/topics/seq%d-dl", k), fmt.Sprintf("projects/p/subscriptions/seq%d", k)
+			srv.api.Pub.CreateTopic(c, &pubsubpb.Topic{Name: tn})
+			srv.api.Pub.CreateTopic(c, &pubsubpb.Topic{Name: dn})
+			sq.run(c, tn, dn, sn)
+			cancel()
+			select {
+			case <-srv.exited:
+			case <-time.After(500 * time.Millisecond):
+			}
+			if !srv.alive() {
+				crashes++
+				col.Violation("crash:sequence/"+sq.name, fmt.Sprintf("the server process died during the request sequence %s (every request in it is valid): %s", sq.name, srv.panicLine()), map[string]any{"sequence": sq.name, "server_log_tail": srv.panicLine()})
+				restart()
+			} else if !probe() {
+				col.Violation("wedged:sequence/"+sq.name, fmt.Sprintf("after the request sequence %s the server no longer answers", sq.name), map[string]any{"sequence": sq.name})
+				restart()
+			} else {
+				answered++
+				// leave nothing behind that later families would stumble over
+				c2, cancel2 := context.WithTimeout(ctx, 5*time.Second)
+				srv.api.Sub.DeleteSubscription(c2, &pubsubpb.DeleteSubscriptionRequest{Subscription: sn})
+				srv.api.Pub.DeleteTopic(c2, &pubsubpb.DeleteTopicRequest{Topic: tn})
+				srv.api.Pub.DeleteTopic(c2, &pubsubpb.DeleteTopicRequest{Topic: dn})
+				cancel2()
+			}
+			col.Case(evd.FP("sequence", sq.name), true)
+		}
 	}
 	// streaming pull with real traffic and flow-control values at the boundaries
 	// of the payload sizes (exactly filled, one below, one above, tiny, huge):
